@@ -216,14 +216,22 @@ def run_case(case, seed=0, replay_dir=None, known=None):
         # ---- translator validation: interpreter (exact rationals) vs real float execution
         worst = 0.0
         for k in range(case.n_validate):
-            qdom.reset()
-            inp = case.inputs(case.conc(seed + 17 * k + 1))
-            qdom.NUMERIC[0] = True
-            case.stage = "validate"
-            try:
-                o_int, _ = interp(inp)
-            finally:
-                qdom.NUMERIC[0] = False
+            for attempt in range(6):
+                qdom.reset()
+                inp = case.inputs(case.conc(seed + 17 * k + 1 + 1009 * attempt))
+                qdom.NUMERIC[0] = True
+                case.stage = "validate"
+                try:
+                    o_int, _ = interp(inp)
+                    break
+                except jx.Unsupported as ex:
+                    # a degenerate draw of small rationals (an exactly singular matrix, a zero pivot): the code under test divides by
+                    # zero on it, which no property claims anything about - draw again
+                    if attempt == 5 or not any(t in str(ex) for t in ("singular", "constant zero")):
+                        raise
+                    res["traced"]["degenerate_draws_skipped"] = res["traced"].get("degenerate_draws_skipped", 0) + 1
+                finally:
+                    qdom.NUMERIC[0] = False
             o_real = real(inp)
             li = jax.tree_util.tree_leaves(o_int, is_leaf=lambda x: isinstance(x, np.ndarray))
             lr = jax.tree_util.tree_leaves(o_real)
@@ -255,6 +263,8 @@ def run_case(case, seed=0, replay_dir=None, known=None):
                     qdom.NUMERIC[0] = False
             except Exception as ex:
                 res["traced"]["prescreen_aborted"] = f"{type(ex).__name__}: {str(ex)[:200]}"
+                if any(t in str(ex) for t in ("singular", "constant zero")):
+                    continue  # degenerate draw: try the next seeded instance
                 break
             done = {v["label"] for v in res["violations"]} | {v["label"] for v in res["known"]}
             for label, lhs, rhs in rels_c:
